@@ -663,8 +663,18 @@ impl EncodingVersion for EncodingVersion2 {
         deserializer: &mut XTypesDeserializer<'a, E, Self>,
         dynamic_data: &mut DynamicData,
     ) -> XTypesResult<()> {
-        let _dheader = deserializer.deserialize_primitive_type::<u32>();
-        deserializer.deserialize_t_as_final(dynamic_data)
+        let dheader = deserializer.deserialize_primitive_type::<u32>()? as usize;
+        deserializer.reader.check_remaining(dheader)?;
+        // The DHEADER delimits the object: members that the type of the writer does not have
+        // are not in the data (they are not read from what follows the object) and members
+        // that only the type of the writer has are skipped
+        let end_pos = deserializer.reader.pos + dheader;
+        let buffer = deserializer.reader.buffer;
+        deserializer.reader.buffer = &buffer[..end_pos];
+        let result = deserializer.deserialize_t_as_final(dynamic_data);
+        deserializer.reader.buffer = buffer;
+        deserializer.reader.pos = end_pos;
+        result
     }
 }
 
